@@ -10,7 +10,12 @@ before call k, for every k, and after the last one) and the destination is inspe
 The real kill outcomes must equal the model's `proc` string, and `safe=1 exec=ok power=ok` must hold.
 
 The oracle restates C04 directly on the observed trace and the kill results.
+
+Round 2: every run of the real code happens in a forked child; bodies are op sequences (incl. closing the part
+file), several savers / several uses of one saver, errno FAMILIES per fault site with behaviour classes, second
+faults, Ctrl-C at every call, the publishing primitives called directly (oracle-only: `line()` returns None).
 """
+import errno
 import itertools
 import json
 import os
@@ -28,6 +33,21 @@ DEST = 'dest.txt'
 PART = 'dest.txt.part'
 
 
+# errnos injected per call (round 1: these are always swept with kills) ...
+FAULT_ERRNO = {'os.fsync': (5, 28), 'file.flush': (28,), 'file.close': (28, 5), 'file.write': (28,), 'os.rename': (18, 13),
+               'os.link': (17, 31), 'os.open': (28,), 'os.fdopen': (12,), 'os.chmod': (1,), 'os.unlink': (1,), 'os.stat': (13,)}
+# ... and the family probed at every call (round 2): every errno of this list (thorough: every errno the platform
+# knows) is injected in a recorded run; each errno whose run BEHAVES differently (other calls, other events, other
+# outcome) from the errnos already seen at that call gets its own kill sweep
+ERRNO_NAMES = ('EPERM ENOENT ESRCH EINTR EIO ENXIO EBADF EAGAIN ENOMEM EACCES EFAULT EBUSY EEXIST EXDEV ENODEV ENOTDIR '
+               'EISDIR EINVAL ENFILE EMFILE ETXTBSY EFBIG ENOSPC ESPIPE EROFS EMLINK EPIPE ENAMETOOLONG ENOLCK ENOSYS '
+               'ENOTEMPTY ELOOP EOVERFLOW EOPNOTSUPP ENOTSUP EDQUOT ESTALE ETIMEDOUT ENOTCONN EREMOTEIO ECANCELED').split()
+
+# the save itself, as source text: run in this process (recorded run, kill children) and in the strace child
+SAVE_SRC = r"""
+import os as _ros, io as _io, contextlib as _ctx
+
+
 class BodyError(Exception):
     pass
 
@@ -36,38 +56,44 @@ class BodyBase(BaseException):
     pass
 
 
-# errnos injected per call (C04 only needs "the call failed"; two values where the code might look at errno)
-FAULT_ERRNO = {'os.fsync': (5, 28), 'file.flush': (28,), 'file.close': (28, 5), 'file.write': (28,), 'os.rename': (18, 13),
-               'os.link': (17, 31), 'os.open': (28,), 'os.fdopen': (12,), 'os.chmod': (1,), 'os.unlink': (1,), 'os.stat': (13,)}
+class FalsyError(Exception):
+    # an exception whose instances are falsy (legal: __bool__ / __len__ are ordinary methods)
+    def __bool__(self):
+        return False
 
-# how the with-block is left: 0 normally, 1 an Exception, 2-5 BaseExceptions that are not Exceptions
-RAISE = {1: BodyError, 2: KeyboardInterrupt, 3: SystemExit, 4: GeneratorExit, 5: BodyBase}
-BODY_EXC = (BodyError, BodyBase, KeyboardInterrupt, SystemExit, GeneratorExit)
+    def __len__(self):
+        return 0
 
 
-# the save as run under `strace -f` (syscall view): argv = repo, dest, json(case)
-SYS_CHILD = r"""
-import sys, os, json
-sys.path.insert(0, sys.argv[1])
-import boltons.fileutils as fu
-dest, case = sys.argv[2], json.loads(sys.argv[3])
-kw = {}
-for name, key, default in (('overwrite', 'ow', 1), ('overwrite_part', 'owp', 0), ('rm_part_on_exc', 'rm', 1), ('text_mode', 'txt', 0)):
-    if case[key] != default:
-        kw[name] = bool(case[key])
-if case['perms'] is not None:
-    kw['file_perms'] = case['perms']
-if case.get('buffering', -1) != -1 and not (case['txt'] and case['buffering'] == 0):
-    kw['buffering'] = case['buffering']
-class BodyError(Exception): pass
-class BodyBase(BaseException): pass
-RAISE = {1: BodyError, 2: KeyboardInterrupt, 3: SystemExit, 4: GeneratorExit, 5: BodyBase}
-os.umask(case['umask'])
-os.write(2, b'BV-MARK-BEGIN')
-try:
-    with fu.atomic_save(dest, **kw) as f:
+# how the with-block is left: 0 normally, 1 an Exception, 2-5 BaseExceptions that are not Exceptions, 6 a falsy Exception
+RAISE = {1: BodyError, 2: KeyboardInterrupt, 3: SystemExit, 4: GeneratorExit, 5: BodyBase, 6: FalsyError}
+
+
+def build_kw(case):
+    # documented defaults are exercised by omitting the keyword
+    kw = {}
+    for name, key, default in (('overwrite', 'ow', 1), ('overwrite_part', 'owp', 0), ('rm_part_on_exc', 'rm', 1), ('text_mode', 'txt', 0)):
+        if case[key] != default:
+            kw[name] = bool(case[key])
+    if case['perms'] is not None:
+        kw['file_perms'] = case['perms']
+    if case.get('buffering', -1) != -1 and not (case['txt'] and case['buffering'] == 0):
+        kw['buffering'] = case['buffering']
+    if case.get('pname'):
+        kw['part_file'] = case['pname']
+    return kw
+
+
+def chunk(case, n, v='\x01'):
+    return v * n if case['txt'] else v.encode('latin-1') * n
+
+
+def run_body(f, case, intrude):
+    ops = case.get('ops')
+    if ops is None:
         for n in case['sizes']:
-            f.write('\x01' * n if case['txt'] else b'\x01' * n)
+            f.write(chunk(case, n))
+        # what a body may do besides writing: rewind / read back what it wrote / ask the position
         post = case.get('post')
         if post in ('seek0', 'readback'):
             f.seek(0)
@@ -76,10 +102,140 @@ try:
             f.seek(0)
         if post == 'tell':
             f.tell()
-        if case['raises']:
-            raise RAISE[case['raises']]()
+    else:
+        for op in ops:
+            if op[0] == 'w' and op[1:].isdigit():
+                f.write(chunk(case, int(op[1:])))
+            elif op.startswith('wl'):
+                n = int(op[2:])
+                f.writelines([chunk(case, n // 2), chunk(case, n - n // 2)])
+            elif op == 'flush':
+                f.flush()
+            elif op == 'fsync':               # the body syncs by itself (the saver cannot know)
+                f.flush()
+                _ros.fsync(f.fileno())
+            elif op == 'tell':
+                f.tell()
+            elif op == 'rb':                  # read back everything written so far; the position is at the end again
+                f.seek(0)
+                f.read()
+            elif op == 'seek0':
+                f.seek(0)
+            elif op == 'close':               # the body closes the part file itself ...
+                f.close()
+            elif op == 'with':                # ... or through the file's own context manager
+                with f:
+                    pass
+            elif op.startswith('wrap'):       # ... or by handing it to a wrapper that closes the underlying stream
+                n = int(op[4:])
+                if case['txt']:
+                    with _ctx.closing(f):
+                        f.write(chunk(case, n))
+                else:
+                    w = _io.TextIOWrapper(f, encoding='latin-1')
+                    w.write('\x01' * n)
+                    w.close()
+            elif op == 'detach':
+                f.detach()
+            elif op == 'chdir':
+                _ros.chdir('/')
+            elif op == 'intrude':             # another writer tries to save the same destination now
+                intrude()
+            else:
+                raise AssertionError('unknown body op %r' % (op,))
+    if case['raises']:
+        raise RAISE[case['raises']]()
+
+
+def run_save(fu, dest, case, start):
+    # the whole scenario of one case; start() is called where the recorded save begins
+    kw = build_kw(case)
+    target = dest
+    if case.get('rel'):                       # relative destination path, resolved against the current directory
+        _ros.chdir(_ros.path.dirname(dest))
+        target = _ros.path.basename(dest)
+    if case.get('pathlib'):
+        import pathlib
+        target = pathlib.Path(target)
+    if case.get('kind') == 'mv':              # the publishing primitive called directly on a finished part file
+        start()
+        fn = getattr(fu, case['fn'])
+        if case['fn'] == 'replace':
+            fn(dest + '.part', target)
+        else:
+            fn(dest + '.part', target, overwrite=bool(case['ow']))
+        return
+    held = []
+
+    def intrude():
+        b = fu.atomic_save(target, **kw)
+        try:
+            fb = b.__enter__()
+        except OSError:
+            return                            # refused while the first writer is active
+        held.append((b, fb))                  # the intruder stays inside its block (it is still running)
+        fb.write(chunk(case, 3, '\x02'))
+        fb.flush()
+    saver = (fu.AtomicSaver if case.get('cls') else fu.atomic_save)(target, **kw)
+    reuse = case.get('reuse')
+    if reuse:                                 # the SAME saver object has been used for an earlier save
+        try:
+            with saver as f:
+                f.write(chunk(case, 11, '\x07'))
+                if reuse == 2:
+                    raise BodyError()
+        except BodyError:
+            pass
+    start()
+    with saver as f:
+        run_body(f, case, intrude)
+"""
+_NS = {}
+exec(compile(SAVE_SRC, '<c04 save>', 'exec'), _NS)
+BodyError, BodyBase, FalsyError, RAISE = _NS['BodyError'], _NS['BodyBase'], _NS['FalsyError'], _NS['RAISE']
+BODY_EXC = (BodyError, BodyBase, FalsyError, KeyboardInterrupt, SystemExit, GeneratorExit)
+CLOSERS = ('close', 'with', 'detach')
+
+
+class ChildDied(Exception):
+    """the forked child that runs the real code ended without reporting (the code under test ended the process)"""
+
+
+def body_closes(case):
+    """the body closes (or detaches) the part file before the block ends"""
+    return any(op in CLOSERS or op.startswith('wrap') for op in (case.get('ops') or ()))
+
+
+def ops_sizes(ops):
+    """the sizes of the writes of a list of body ops"""
+    out = []
+    for op in ops:
+        if op[0] == 'w' and op[1:].isdigit():
+            out.append(int(op[1:]))
+        elif op.startswith('wl'):
+            out.append(int(op[2:]))
+        elif op.startswith('wrap'):
+            out.append(int(op[4:]))
+    return out
+
+
+# the save as run under `strace -f` (syscall view): argv = repo, dest, json(case)
+SYS_CHILD = SAVE_SRC + r"""
+import sys, os, json
+sys.path.insert(0, sys.argv[1])
+import boltons.fileutils as fu
+dest, case = sys.argv[2], json.loads(sys.argv[3])
+os.umask(case['umask'])
+
+
+def start():
+    os.write(2, b'BV-MARK-BEGIN')
+
+
+try:
+    run_save(fu, dest, case, start)
     out = 'ok'
-except (BodyError, BodyBase, KeyboardInterrupt, SystemExit, GeneratorExit):
+except (BodyError, BodyBase, FalsyError, KeyboardInterrupt, SystemExit, GeneratorExit):
     out = 'body'
 except OSError as e:
     out = 'os:%s' % e.errno
@@ -210,20 +366,34 @@ class C04(Property):
     PID = 'C04'
     QUICK_BUDGET_S = 40
     THOROUGH_BUDGET_S = 600
-    RULE = ('a case is one whole save: overwrite on/off x destination absent/present x text/binary x write pattern '
-            '(none, one, many, large) x block raises or not, plus stale-part/overwrite_part, file_perms, '
-            'rm_part_on_exc=False, buffering=0, bodies that rewind / read back / tell after writing, blocks left '
-            'through KeyboardInterrupt / SystemExit / GeneratorExit / another BaseException, one injected OS failure at '
-            'every call of three (thorough: 48) base saves, and (seeded) random write patterns. For each case the recorded event '
-            'trace is judged by the Lean SafeTrace predicate and the save is re-run in a child process that is killed '
-            'immediately before every recorded call (and after the last). Non-trivial = the trace contains a '
+    RULE = ('a case is one whole save scenario, run in a forked child (no state leaks between cases): overwrite on/off x '
+            'destination absent/present (also read-only / mode 0) x text/binary x write pattern (none, one, many, large) x '
+            'block raises or not, the full 2^4 flag grid, stale-part/overwrite_part, file_perms, rm_part_on_exc=False, buffer '
+            'sizes 0/1/2/16/4096/1M, an explicit part_file name, a pathlib / relative destination (and a body that changes '
+            'the directory), AtomicSaver used directly; BODIES given as op sequences: write, writelines, flush, own fsync, tell, '
+            'read back, rewind, and bodies that CLOSE or detach the part file themselves (close(), `with fo:`, a TextIOWrapper / '
+            'closing() wrapper) before / after writing, raising afterwards or not; blocks left through an Exception, '
+            'KeyboardInterrupt / SystemExit / GeneratorExit / another BaseException, or an exception whose instance is falsy; '
+            'a SECOND WRITER entering the same destination while the first is inside its block; the SAME saver object used '
+            'again after a completed or a raising save; a save that follows a FAILED save of another saver in the same process '
+            '(every call x 10 errnos probed); the publishing primitives atomic_rename / _atomic_rename / replace called directly; '
+            'one injected OS failure at every call of eleven (thorough: 59) base saves where every errno of a 40-member family '
+            '(thorough: every errno of the platform) is probed in a recorded run and each errno after which the save BEHAVES '
+            'differently gets its own case, a second failure at every later call (first three bases; thorough: all), Ctrl-C '
+            '(KeyboardInterrupt) raised at every call of three saves; and (seeded) random write patterns / op sequences. For each case '
+            'the recorded event trace is judged by the Lean SafeTrace predicate and the save is re-run in a child process that '
+            'is killed immediately before every recorded call (and after the last). Non-trivial = the trace contains a '
             'publishing event and at least one kill point on each side of it; distinct = distinct case.')
     ASSUMPTIONS = ['process death is exhibited for real (os._exit in a child at every recorded call); power loss '
                    'cannot be exhibited: it is covered only by the theorem over the abstract file system '
                    '(fsync makes the page cache durable; rename/link are atomic; directory operations reach the disk in order)',
                    'kill points are the recorded calls (os.*, file.write/flush/close); a death inside a call is '
                    'covered by the model only through the atomicity of the kernel operations',
-                   'POSIX branch of atomic_rename/replace']
+                   'POSIX branch of atomic_rename/replace',
+                   'a body that closes or detaches the part file itself has taken the file away from the saver: refusing that save '
+                   'with the ValueError of the closed file and an untouched destination is accepted (as is completing it correctly)',
+                   'a second writer is simulated in the same process (a second saver entered while the first is inside its block), '
+                   'with overwrite_part=False: with overwrite_part=True taking the part file away is documented behaviour']
     CORRESPONDENCE_NAME = ('C04.Driver: SafeTrace acceptance of the observed event trace + model process-death outcomes '
                            'vs real kill-at-every-call outcomes of boltons.fileutils.atomic_save')
 
@@ -248,12 +418,203 @@ class C04(Property):
 
     # ------------------------------------------------------------------ generation
     PATTERNS = {'none': [], 'one': [5], 'many': [3, 1, 4, 1, 5, 9, 2, 6], 'large': [300000]}
+    BASE = dict(ow=1, owp=0, rm=1, txt=0, perms=None, umask=0o022, dest=None, part=0, raises=0, sizes=[5], buffering=-1)
+    PRESENT = [0o644, 11]
+
+    @staticmethod
+    def with_ops(case, ops):
+        return dict(case, ops=list(ops), sizes=ops_sizes(ops))
+
+    def errnos(self):
+        if self.thorough:
+            return sorted(errno.errorcode)
+        return sorted({getattr(errno, n) for n in ERRNO_NAMES if hasattr(errno, n)})
+
+    def plain_cases(self):
+        """round 1's grid of plain saves (also what the saverTrace diagnostic is run on)"""
+        for ow, dest, txt, pat, raises in itertools.product((1, 0), (None, self.PRESENT), (0, 1), ('none', 'one', 'many', 'large'), (0, 1)):
+            yield dict(self.BASE, ow=ow, dest=dest, txt=txt, sizes=self.PATTERNS[pat], raises=raises)
+
+    def body_cases(self):
+        """bodies that do more than write (small, adversarial: first in the stream)"""
+        base, W = self.BASE, self.with_ops
+        # the body closes / detaches the part file before the block ends: directly, through the file's own context
+        # manager, through a wrapper that closes the underlying stream; before / after / between writes; then raises or not
+        closers = (['w5', 'close'], ['w3', 'w70000', 'close'], ['close'], ['w5', 'with'], ['wrap5'], ['w3', 'wrap70000'],
+                   ['w5', 'flush', 'close'], ['w5', 'fsync', 'close'], ['w5', 'close', 'close'], ['w5', 'rb', 'close'],
+                   ['w5', 'seek0', 'close'], ['w5', 'detach'], ['w70000', 'detach'])
+        for dest, ops in itertools.product((None, self.PRESENT), closers):
+            for txt in (0, 1):
+                yield W(dict(base, dest=dest, txt=txt), ops)
+        for ops in (['w5', 'close'], ['wrap5'], ['w5', 'with']):
+            yield W(dict(base, ow=0), ops)
+            yield W(dict(base, dest=self.PRESENT, raises=1), ops)
+            yield W(dict(base, dest=self.PRESENT, raises=2), ops)
+            yield W(dict(base, dest=self.PRESENT, rm=0), ops)
+            yield W(dict(base, dest=self.PRESENT, perms=0o600, buffering=0), ops)
+            yield W(dict(base, dest=self.PRESENT, part=1, owp=1), ops)
+        # flush / fsync / tell / read back / writelines in the middle of the writes
+        mids = (['w5', 'flush', 'w3'], ['w5', 'fsync'], ['w5', 'fsync', 'w70000'], ['w3', 'rb', 'w4'], ['w70000', 'rb', 'w1'],
+                ['wl6', 'w1'], ['w5', 'tell', 'w5', 'seek0'], ['flush'], ['fsync'], ['w5', 'flush', 'flush', 'fsync', 'seek0'])
+        for dest, txt, ops in itertools.product((None, self.PRESENT), (0, 1), mids):
+            yield W(dict(base, dest=dest, txt=txt), ops)
+        yield W(dict(base, ow=0), ['w5', 'fsync'])
+        yield W(dict(base, dest=self.PRESENT, buffering=0), ['w5', 'fsync', 'w3', 'seek0'])
+        # the block left through an exception whose instance is falsy
+        for dest, sizes, ow in itertools.product((None, self.PRESENT), ([5], [3, 70000]), (1, 0)):
+            yield dict(base, dest=dest, raises=6, sizes=sizes, ow=ow)
+        yield dict(base, dest=self.PRESENT, raises=6, txt=1, rm=0)
+
+    def instance_cases(self):
+        """several savers / several uses of one saver / unusual-but-legal ways of naming the destination"""
+        base, W = self.BASE, self.with_ops
+        # a second writer tries to save the same destination while the first one is inside its block
+        for dest, txt, ops in itertools.product((None, self.PRESENT), (0, 1),
+                                                (['w5', 'intrude'], ['intrude', 'w5'], ['w3', 'intrude', 'w70000', 'intrude', 'w1'],
+                                                 ['w5', 'flush', 'intrude'])):
+            yield W(dict(base, dest=dest, txt=txt), ops)
+        yield W(dict(base, ow=0), ['w5', 'intrude'])
+        yield W(dict(base, dest=self.PRESENT, raises=1), ['w5', 'intrude'])
+        yield W(dict(base, dest=self.PRESENT, perms=0o600, pname='custom.tmp'), ['w5', 'intrude', 'w2'])
+        # the same saver object used again, after a completed and after a raising save
+        for reuse, dest, txt, sizes, raises in itertools.product((1, 2), (None, self.PRESENT), (0, 1), ([5], [3, 70000], []), (0, 1)):
+            yield dict(base, reuse=reuse, dest=dest, txt=txt, sizes=sizes, raises=raises)
+        yield W(dict(base, reuse=1), ['w5', 'seek0'])
+        yield W(dict(base, reuse=1, dest=self.PRESENT), ['w5', 'close'])
+        yield dict(base, reuse=2, ow=0)
+        yield dict(base, reuse=1, perms=0o600, buffering=0, sizes=[4, 70000])
+        # an explicit part file name; a pathlib.Path; a relative path (and a body that changes the directory)
+        for dest, raises in itertools.product((None, self.PRESENT), (0, 1)):
+            yield dict(base, dest=dest, raises=raises, pname='custom.tmp')
+            yield dict(base, dest=dest, raises=raises, pname='.dest.txt.swp', ow=0)
+            yield dict(base, dest=dest, raises=raises, pathlib=1)
+            yield dict(base, dest=dest, raises=raises, rel=1, sizes=[3, 70000])
+            yield W(dict(base, dest=dest, raises=raises, rel=1), ['w5', 'chdir', 'w3'])
+            yield W(dict(base, dest=dest, raises=raises, rel=1, ow=0, pathlib=1), ['chdir', 'w5'])
+        yield dict(base, dest=self.PRESENT, pname='custom.tmp', part=1, owp=1)
+        yield dict(base, dest=self.PRESENT, pname='custom.tmp', part=1, owp=0)
+        # the publishing primitives called directly on a finished part file
+        for fn, ow, dest in itertools.product(('atomic_rename', '_atomic_rename', 'replace'), (1, 0), (None, self.PRESENT, [0o600, 0])):
+            if fn == 'replace' and not ow:
+                continue
+            yield dict(base, kind='mv', fn=fn, ow=ow, dest=dest, sizes=[7])
+        # buffer sizes (1 = line buffered text)
+        for buffering, txt in itertools.product((1, 2, 16, 4096, 1 << 20), (0, 1)):
+            if buffering == 1 and not txt:
+                continue
+            yield dict(base, buffering=buffering, txt=txt, sizes=[3, 70000, 1], dest=self.PRESENT)
+            yield dict(base, buffering=buffering, txt=txt, sizes=[5], post='seek0')
+
+    def fault_cases(self, fb, second):
+        """one operating-system failure at every call of the save `fb`, for every errno of the family that makes
+        the save behave differently; `second`: also a second failure at every later call"""
+        calls = self.impl(fb, kills=False)['calls']
+        fam = self.errnos()
+        for k, name in enumerate(calls):
+            must = list(FAULT_ERRNO.get(name, (5,)))
+            seen = set()
+            tries = [dict(fb, fault=[k, e]) for e in must + [x for x in fam if x not in must]]
+            for c, o in zip(tries, self.probe(tries)):
+                e = c['fault'][1]
+                out = 'os:injected' if o['out'] == 'os:%d' % e else o['out']
+                sig = (tuple(o['events']), tuple(o['calls']), out, o['final'], o['part'], tuple(o['extra']))
+                fresh = sig not in seen
+                seen.add(sig)
+                self.stats['fault_probes'] = self.stats.get('fault_probes', 0) + 1
+                if not (fresh or e in must):
+                    continue
+                if fresh and e not in must:
+                    self.stats['errno_sensitive_sites'] = self.stats.get('errno_sensitive_sites', 0) + 1
+                yield c
+                if second and fresh:
+                    for j in range(k + 1, len(o['calls'])):
+                        yield dict(c, fault2=[j, FAULT_ERRNO.get(o['calls'][j], (5,))[0]])
+
+    PRIOR_ERRNOS = ('EINVAL', 'ENOTSUP', 'ENOSYS', 'EPERM', 'EIO', 'ENOSPC', 'EXDEV', 'EINTR', 'EROFS', 'EACCES')
+
+    def prior_cases(self):
+        """a save that follows a FAILED save of another saver object in the same process: every call of the earlier
+        save x a family of errnos is probed in a recorded run; the recorded save must behave as if nothing had happened
+        (a handful is always swept with kills, plus every probe after which it behaves differently)"""
+        base = self.BASE
+        fam = [getattr(errno, n) for n in self.PRIOR_ERRNOS if hasattr(errno, n)]
+        for fb in (dict(base, dest=self.PRESENT), dict(base, ow=0, sizes=[3, 4])):
+            o0 = self.impl(fb, kills=False)
+            ref = (tuple(o0['events']), o0['out'], o0['final'], o0['part'])
+            must = {(o0['calls'].index(name), e) for name, e in (('os.fsync', errno.EINVAL), ('os.fsync', errno.ENOTSUP), ('file.flush', errno.ENOSPC),
+                                                                   ('os.rename', errno.EXDEV), ('os.link', errno.EPERM), ('os.open', errno.EACCES))
+                    if name in o0['calls']}
+            for k in range(len(o0['calls'])):
+                for e in fam:
+                    c = dict(fb, prior=[k, e])
+                    o = self.probe([c])[0] if self.thorough or (k, e) in must else None
+                    # (quick: each probe in a child of its own costs a fork; the errnos of one call share a child below)
+                    if o is not None:
+                        self.stats['prior_probes'] = self.stats.get('prior_probes', 0) + 1
+                        if (k, e) in must or (tuple(o['events']), o['out'], o['final'], o['part']) != ref:
+                            yield c
+                if not self.thorough:
+                    # one child per call of the earlier save: a leak shows in the recorded save of the FIRST errno that
+                    # causes it (later ones in the same child may be affected as well: then they are swept too)
+                    tries = [dict(fb, prior=[k, e]) for e in fam if (k, e) not in must]
+                    for c, o in zip(tries, self.probe(tries)):
+                        self.stats['prior_probes'] = self.stats.get('prior_probes', 0) + 1
+                        if (tuple(o['events']), o['out'], o['final'], o['part']) != ref:
+                            yield c
 
     def cases(self, budget_s):
         rng = self.rng
-        base = dict(ow=1, owp=0, rm=1, txt=0, perms=None, umask=0o022, dest=None, part=0, raises=0, sizes=[5], buffering=-1)
-        for ow, dest, txt, pat, raises in itertools.product((1, 0), (None, [0o644, 11]), (0, 1), ('none', 'one', 'many', 'large'), (0, 1)):
-            yield dict(base, ow=ow, dest=dest, txt=txt, sizes=self.PATTERNS[pat], raises=raises)
+        base = dict(self.BASE)
+        # ---- round 2, small and adversarial first
+        yield from self.body_cases()
+        yield from self.instance_cases()
+        # read-only / mode-0 destinations (replacing them needs no write permission on the file itself)
+        for mode, ow, raises in itertools.product((0o444, 0o400, 0), (1, 0), (0, 1)):
+            yield dict(base, dest=[mode, 11], ow=ow, raises=raises, sizes=[3, 4])
+        yield dict(base, dest=[0o444, 11], txt=1, sizes=[70000], perms=0o600)
+        yield dict(base, dest=[0o444, 11], part=1, owp=1)
+        yield from self.prior_cases()
+        # Ctrl-C (KeyboardInterrupt) arriving at every call of the save, also inside __exit__
+        for fb in (dict(base, dest=[0o644, 11], sizes=[3, 70000]), dict(base, ow=0, txt=1, sizes=[3, 4]), dict(base, dest=[0o600, 4], raises=1, rm=0)):
+            for k in range(len(self.impl(fb, kills=False)['calls'])):
+                yield dict(fb, fault=[k, 'K'])
+        # every combination of the four flags on a plain two-write save that exits normally
+        for ow, owp, rm, txt, dest in itertools.product((1, 0), (0, 1), (1, 0), (0, 1), (None, [0o644, 11])):
+            yield dict(base, ow=ow, owp=owp, rm=rm, txt=txt, dest=dest, part=owp, sizes=[3, 4])
+        # the class used directly instead of the atomic_save() function
+        for dest, ow, raises in itertools.product((None, [0o644, 11]), (1, 0), (0, 1)):
+            yield dict(base, cls=1, dest=dest, ow=ow, raises=raises, sizes=[3, 70000])
+        yield self.with_ops(dict(base, cls=1, dest=[0o644, 11]), ['w5', 'close'])
+        yield dict(base, cls=1, reuse=1, txt=1)
+        # the with-block left through a BaseException that is not an Exception (Ctrl-C, sys.exit(), generator close)
+        for dest, raises, sizes in itertools.product((None, [0o644, 11]), (2, 3, 4, 5), ([5], [3, 70000])):
+            yield dict(base, dest=dest, raises=raises, sizes=sizes)
+        yield dict(base, dest=[0o644, 11], ow=0, raises=2)
+        yield dict(base, dest=None, txt=1, raises=3, rm=0)
+        # bodies that do more than write: rewind, read back what they wrote, ask for the position
+        for dest, txt, post, sizes in itertools.product((None, [0o644, 11]), (0, 1), ('seek0', 'readback', 'tell'), ([5], [3, 70000], [])):
+            yield dict(base, dest=dest, txt=txt, post=post, sizes=sizes)
+        yield dict(base, dest=[0o644, 11], ow=0, post='seek0')
+        yield dict(base, dest=[0o644, 11], post='readback', raises=1)
+        # one operating-system failure at every call of the save (the destination must stay old-or-complete-new,
+        # and a failed flush / fsync / close must not be followed by publication), errno family per call;
+        # for the first three base saves also a second failure at every later call
+        fbases = [dict(base, dest=[0o644, 11]), dict(base, dest=None, ow=0, sizes=[3, 4]), dict(base, dest=[0o600, 4], txt=1, perms=0o640, sizes=[70000])]
+        fmore = [dict(base, dest=None, ow=0, txt=1, sizes=[70000]), dict(base, dest=[0o644, 11], raises=2, sizes=[3, 70000]),
+                 dict(base, dest=[0o644, 11], buffering=0, sizes=[4, 70000]), self.with_ops(dict(base, dest=[0o644, 11]), ['w5', 'close']),
+                 dict(base, dest=None, part=1, owp=1, perms=0o600), dict(base, dest=None, ow=0, post='seek0'),
+                 dict(base, dest=[0o644, 11], reuse=1, sizes=[3, 4]), dict(base, dest=None, ow=0, rm=0, pname='custom.tmp')]
+        if self.thorough:
+            fmore += [dict(base, ow=ow, dest=dest, txt=txt, sizes=sizes, raises=raises) for ow, dest, txt, sizes, raises in
+                      itertools.product((1, 0), (None, [0o644, 11]), (0, 1), ([], [5], [3, 1, 70000]), (0, 1, 2))]
+        for fb in fbases:
+            yield from self.fault_cases(fb, second=True)
+        for fb in fmore:
+            yield from self.fault_cases(fb, second=self.thorough)
+        for fn, ow, dest in (('atomic_rename', 0, None), ('atomic_rename', 1, [0o644, 11]), ('replace', 1, None)):
+            yield from self.fault_cases(dict(base, kind='mv', fn=fn, ow=ow, dest=dest, sizes=[7]), second=True)
+        # ---- round 1
+        yield from self.plain_cases()
         # stale part file, explicit permissions, rm_part_on_exc off, unbuffered
         for dest in (None, [0o600, 4]):
             yield dict(base, dest=dest, part=1, owp=1)
@@ -263,71 +624,81 @@ class C04(Property):
             yield dict(base, dest=dest, rm=0, raises=1)
             yield dict(base, dest=dest, buffering=0, sizes=[4, 70000, 1])
             yield dict(base, dest=dest, sizes=[8192, 8192, 1], txt=1)
-        # bodies that do more than write: rewind, read back what they wrote, ask for the position
-        for dest, txt, post, sizes in itertools.product((None, [0o644, 11]), (0, 1), ('seek0', 'readback', 'tell'), ([5], [3, 70000], [])):
-            yield dict(base, dest=dest, txt=txt, post=post, sizes=sizes)
-        yield dict(base, dest=[0o644, 11], ow=0, post='seek0')
-        yield dict(base, dest=[0o644, 11], post='readback', raises=1)
-        # the with-block left through a BaseException that is not an Exception (Ctrl-C, sys.exit(), generator close)
-        for dest, raises, sizes in itertools.product((None, [0o644, 11]), (2, 3, 4, 5), ([5], [3, 70000])):
-            yield dict(base, dest=dest, raises=raises, sizes=sizes)
-        yield dict(base, dest=[0o644, 11], ow=0, raises=2)
-        yield dict(base, dest=None, txt=1, raises=3, rm=0)
-        # one operating-system failure at every call of the save (the destination must stay old-or-complete-new,
-        # and a failed flush / fsync / close must not be followed by publication)
-        fbases = [dict(base, dest=[0o644, 11]), dict(base, dest=None, ow=0, sizes=[3, 4]), dict(base, dest=[0o600, 4], txt=1, perms=0o640, sizes=[70000])]
-        if self.thorough:
-            fbases += [dict(base, ow=ow, dest=dest, txt=txt, sizes=sizes, raises=raises) for ow, dest, txt, sizes, raises in
-                       itertools.product((1, 0), (None, [0o644, 11]), (0, 1), ([], [5], [3, 1, 70000]), (0, 1, 2))]
-        for fb in fbases:
-            calls = self.impl(fb, kills=False)['calls']
-            for k, name in enumerate(calls):
-                for e in FAULT_ERRNO.get(name, (5,)):
-                    yield dict(fb, fault=[k, e])
         # old content == new content, empty old file
         yield dict(base, dest=[0o644, 5], sizes=[5])
         yield dict(base, dest=[0o644, 0], sizes=[])
         yield dict(base, dest=[0o644, 0], sizes=[2])
         # syscall view (strace -f): the same acceptance on what the kernel saw
         sys_cases = [dict(base, dest=None, sizes=[5, 70000]), dict(base, dest=[0o644, 11], ow=0, sizes=[3]),
-                     dict(base, dest=[0o600, 4], txt=1, sizes=[2, 2], raises=1), dict(base, dest=[0o644, 11], perms=0o600, part=1, owp=1)]
+                     dict(base, dest=[0o600, 4], txt=1, sizes=[2, 2], raises=1), dict(base, dest=[0o644, 11], perms=0o600, part=1, owp=1),
+                     self.with_ops(dict(base, dest=[0o644, 11]), ['w5', 'close']), self.with_ops(dict(base, dest=None), ['w3', 'fsync', 'w70000', 'seek0'])]
         if self.thorough:
             sys_cases += [dict(base, ow=ow, dest=dest, txt=txt, sizes=self.PATTERNS[pat], raises=raises)
                           for ow, dest, txt, pat, raises in itertools.product((1, 0), (None, [0o644, 11]), (0, 1), ('none', 'one', 'many', 'large'), (0, 1))]
+            sys_cases += [c for c in self.body_cases() if c['dest'] is not None and not c['txt']][:30]
         if self.have_strace():
             for c in sys_cases:
                 yield dict(c, kind='sys')
         n = 800 if self.thorough else 60
         for i in range(n):
-            k = rng.choice([0, 1, 2, 3, 5, 8, 20] + ([200] if self.thorough and i % 10 == 0 else []))
-            sizes = [rng.choice([0, 1, 2, 7, 100, 4096, 8192, 8193, 70000]) for _ in range(k)]
-            if self.thorough and i % 25 == 0:
-                sizes.append(5_000_000)
-            yield dict(base, ow=rng.randrange(2), owp=rng.randrange(2), rm=rng.randrange(2), txt=rng.randrange(2),
-                       perms=rng.choice([None, 0o600, 0o640, 0]), umask=rng.choice([0o022, 0o077, 0]),
-                       dest=rng.choice([None, [0o644, 11], [0o600, 3]]), part=rng.randrange(2),
-                       raises=rng.choice([1, 1, 2, 3, 4, 5]) if rng.random() < 0.3 else 0, sizes=sizes, buffering=rng.choice([-1, -1, -1, 0, 16]),
-                       post=rng.choice([None, None, None, 'seek0', 'readback', 'tell']))
+            yield self.random_case(rng, i)
+
+    OPS_POOL = ('w1', 'w7', 'w100', 'w4096', 'w8193', 'w70000', 'wl6', 'flush', 'fsync', 'tell', 'rb', 'intrude')
+    OPS_END = (None, None, 'seek0', 'close', 'with', 'wrap5', 'detach', 'seek0')
+
+    def random_case(self, rng, i):
+        k = rng.choice([0, 1, 2, 3, 5, 8, 20] + ([200] if self.thorough and i % 10 == 0 else []))
+        sizes = [rng.choice([0, 1, 2, 7, 100, 4096, 8192, 8193, 70000]) for _ in range(k)]
+        if self.thorough and i % 25 == 0:
+            sizes.append(5_000_000)
+        c = dict(self.BASE, ow=rng.randrange(2), owp=rng.randrange(2), rm=rng.randrange(2), txt=rng.randrange(2),
+                 perms=rng.choice([None, 0o600, 0o640, 0]), umask=rng.choice([0o022, 0o077, 0]),
+                 dest=rng.choice([None, [0o644, 11], [0o600, 3]]), part=rng.randrange(2),
+                 raises=rng.choice([1, 1, 2, 3, 4, 5, 6]) if rng.random() < 0.3 else 0, sizes=sizes, buffering=rng.choice([-1, -1, -1, 0, 16]),
+                 post=rng.choice([None, None, None, 'seek0', 'readback', 'tell']))
+        if i % 3 == 2:
+            # a random op sequence instead of the plain write list
+            ops = [rng.choice(self.OPS_POOL) for _ in range(rng.choice([1, 2, 3, 5, 8]))]
+            end = rng.choice(self.OPS_END)
+            if end == 'detach' and c['buffering'] == 0 and not c['txt']:
+                end = 'close'
+            if end:
+                ops.append(end)
+            if 'intrude' in ops:
+                c['owp'] = 0        # with overwrite_part the intruder is DOCUMENTED to take the part file away
+            c = self.with_ops(dict(c, post=None), ops)
+            reuse = rng.choice([0, 0, 1, 2])
+            if reuse:
+                c.update(reuse=reuse, ow=1, part=0)
+        return c
 
     def deep_cases(self, budget_s):
         for c in self.cases(budget_s):
             yield c
         rng = self.rng
-        base = dict(ow=1, owp=0, rm=1, txt=0, perms=None, umask=0o022, dest=None, part=0, raises=0, sizes=[5], buffering=-1)
+        i = 0
         while True:
-            sizes = [rng.choice([0, 1, 2, 7, 100, 4096, 8192, 8193, 70000]) for _ in range(rng.choice([0, 1, 2, 3, 5, 8]))]
-            yield dict(base, ow=rng.randrange(2), owp=rng.randrange(2), rm=rng.randrange(2), txt=rng.randrange(2),
-                       perms=rng.choice([None, 0o600, 0o640, 0]), umask=rng.choice([0o022, 0o077, 0]),
-                       dest=rng.choice([None, [0o644, 11], [0o600, 3]]), part=rng.randrange(2),
-                       raises=rng.choice([1, 2, 3, 4, 5]) if rng.random() < 0.3 else 0, sizes=sizes, buffering=rng.choice([-1, -1, 0, 16]),
-                       post=rng.choice([None, None, 'seek0', 'readback', 'tell']))
+            i += 1
+            yield self.random_case(rng, i)
 
     # ------------------------------------------------------------------ running the real code
     @staticmethod
     def contents(case):
         old = None if case['dest'] is None else b'\x07' * case['dest'][1]
+        if case.get('reuse') == 1:
+            old = b'\x07' * 11          # what the earlier save through the same saver object has put there
         new = b'\x01' * sum(case['sizes'])
         return old, new
+
+    @staticmethod
+    def stale(case):
+        """a part file is in the way when the recorded save starts: prepared, or left behind by the earlier raising
+        save of the same saver object with rm_part_on_exc=False"""
+        return 1 if (case['part'] or (case.get('reuse') == 2 and not case['rm'])) else 0
+
+    @staticmethod
+    def pname(case):
+        return case.get('pname') or PART
 
     def prepare(self, case):
         d = tempfile.mkdtemp(prefix='bvC04-')
@@ -337,38 +708,38 @@ class C04(Property):
                 f.write(b'\x07' * case['dest'][1])
             os.chmod(dest, case['dest'][0])
         if case['part']:
-            with open(os.path.join(d, PART), 'wb') as f:
+            with open(os.path.join(d, self.pname(case)), 'wb') as f:
                 f.write(b'\x09\x09')
-            os.chmod(os.path.join(d, PART), 0o640)
+            os.chmod(os.path.join(d, self.pname(case)), 0o640)
+        if case.get('kind') == 'mv':    # a finished part file, to be published by atomic_rename / replace
+            with open(os.path.join(d, PART), 'wb') as f:
+                f.write(b'\x01' * sum(case['sizes']))
+                f.flush()
+                os.fsync(f.fileno())
         return d, dest
 
     def do_save(self, fu, dest, case, spy):
-        # documented defaults are exercised by omitting the keyword
-        kw = {}
-        for name, val, default in (('overwrite', case['ow'], 1), ('overwrite_part', case['owp'], 0),
-                                   ('rm_part_on_exc', case['rm'], 1), ('text_mode', case['txt'], 0)):
-            if val != default:
-                kw[name] = bool(val)
-        if case['perms'] is not None:
-            kw['file_perms'] = case['perms']
-        if case.get('buffering', -1) != -1 and not (case['txt'] and case['buffering'] == 0):
-            kw['buffering'] = case['buffering']
-        spy.install()
+        if case.get('kind') == 'mv':
+            spy.part_path = os.path.abspath(dest + '.part')
+        elif self.stale(case):
+            # a part file already lies there under its documented name: calls on it count from the start
+            # (otherwise the recorder learns the part path from the first open for writing)
+            spy.part_path = os.path.join(os.path.dirname(os.path.abspath(dest)), self.pname(case))
+        if case.get('prior'):
+            # an EARLIER save in the same process (another saver object, another destination in the same directory)
+            # suffered an operating-system failure: nothing of it may leak into the recorded save
+            other = dest + '.prior'
+            sp = Spy(other, plan={case['prior'][0]: case['prior'][1]})
+            sp.install()
+            try:
+                with fu.atomic_save(other, overwrite=bool(case['ow'])) as f:
+                    f.write(b'zz')
+            except Exception:
+                pass
+            finally:
+                sp.uninstall()
         try:
-            with fu.atomic_save(dest, **kw) as f:
-                for n in case['sizes']:
-                    f.write('\x01' * n if case['txt'] else b'\x01' * n)
-                # what a body may do besides writing: rewind / read back what it wrote / ask the position
-                post = case.get('post')
-                if post in ('seek0', 'readback'):
-                    f.seek(0)
-                if post == 'readback':
-                    f.read()
-                    f.seek(0)
-                if post == 'tell':
-                    f.tell()
-                if case['raises']:
-                    raise RAISE[case['raises']]()
+            _NS['run_save'](fu, dest, case, spy.install)
         finally:
             spy.uninstall()
 
@@ -407,7 +778,7 @@ class C04(Property):
         try:
             d, dest = self.prepare(case)
             tr = os.path.join(d, 'bv-strace.txt')
-            cj = json.dumps(dict({k: case[k] for k in ('ow', 'owp', 'rm', 'txt', 'perms', 'umask', 'sizes', 'raises', 'buffering')}, post=case.get('post')))
+            cj = json.dumps({k: v for k, v in case.items() if k != 'kind'})
             p = subprocess.run([self.have_strace(), '-f', '-s', '16', '-o', tr, '-e', 'trace=' + SYS_TRACE,
                                 sys.executable, '-c', SYS_CHILD, REPO, dest, cj],
                                stdout=subprocess.PIPE, stderr=subprocess.PIPE, text=True, timeout=60)
@@ -421,8 +792,8 @@ class C04(Property):
                 obs['events'], obs['calls'] = parsed
             obs['final'] = classify(old, new, self.look(dest))
             names = sorted(os.listdir(d))
-            obs['part'] = 1 if PART in names else 0
-            obs['extra'] = [n for n in names if n not in (DEST, PART)]
+            obs['part'] = 1 if self.pname(case) in names else 0
+            obs['extra'] = [n for n in names if n not in (DEST, self.pname(case))]
         except subprocess.TimeoutExpired:
             obs['out'] = 'exc:CaseTimeout'
         finally:
@@ -431,41 +802,116 @@ class C04(Property):
         self._cache[self.key(case)] = obs['events']
         return obs
 
+    # every run of the real code happens in a forked child: whatever a save leaves behind in the process (module
+    # or class attributes, the working directory, the umask) cannot leak into the cases that follow, so every
+    # case - and every replay - is self-contained
+    @staticmethod
+    def in_child(fn):
+        r, w = os.pipe()
+        pid = os.fork()
+        if pid == 0:
+            try:
+                os.close(r)
+                try:
+                    with time_limit(45):
+                        res = fn()
+                except CaseTimeout:
+                    res = {'__timeout__': 1}
+                except BaseException as e:
+                    res = {'__error__': '%s: %s' % (type(e).__name__, e)}
+                with os.fdopen(w, 'w') as fh:
+                    json.dump(res, fh)
+            finally:
+                os._exit(0)
+        os.close(w)
+        try:
+            with os.fdopen(r) as fh:
+                data = fh.read()
+            os.waitpid(pid, 0)
+        except BaseException:
+            try:
+                os.kill(pid, 9)
+                os.waitpid(pid, 0)
+            except OSError:
+                pass
+            raise
+        if not data:
+            raise ChildDied()
+        res = json.loads(data)
+        if isinstance(res, dict) and res.get('__timeout__'):
+            raise CaseTimeout()
+        if isinstance(res, dict) and res.get('__error__'):
+            raise RuntimeError('C04 harness child failed: ' + res['__error__'])
+        return res
+
+    def recorded(self, case):
+        """(in a child) one recorded run of the case; returns the observation without the kill outcomes"""
+        import boltons.fileutils as fu
+        old, new = self.contents(case)
+        os.umask(case['umask'])
+        obs = {'events': [], 'calls': [], 'out': 'ok', 'kills': '', 'final': '?', 'part': 0, 'extra': []}
+        d, dest = self.prepare(case)
+        try:
+            plan = {f[0]: f[1] for f in (case.get('fault'), case.get('fault2')) if f} or None
+            spy = Spy(dest, plan=plan)
+            try:
+                self.do_save(fu, dest, case, spy)
+            except BODY_EXC:
+                obs['out'] = 'body'
+            except OSError as e:
+                obs['out'] = 'os:%s' % (e.errno,)
+            except CaseTimeout:
+                raise
+            except Exception as e:
+                obs['out'] = 'exc:' + exc_name(e)
+            obs['events'] = spy.events()
+            obs['calls'] = spy.calls()
+            obs['fired'] = int(any(r.get('injected') for r in spy.log))
+            obs['final'] = classify(old, new, self.look(dest))
+            names = sorted(os.listdir(d))
+            obs['part'] = 1 if self.pname(case) in names else 0
+            obs['extra'] = [n for n in names if n not in (DEST, self.pname(case)) and not n.startswith(DEST + '.prior')]
+            obs['n_calls'] = spy.n
+        finally:
+            os.chdir('/')
+            shutil.rmtree(d, ignore_errors=True)
+        return obs
+
+    def probe(self, cases):
+        """recorded runs (no kills) of several cases, one after the other in ONE child"""
+        if not cases:
+            return []
+        try:
+            with time_limit(120):
+                return self.in_child(lambda: [self.recorded(c) for c in cases])
+        except (CaseTimeout, ChildDied) as e:
+            return [{'events': [], 'calls': [], 'out': 'exc:' + exc_name(e), 'kills': '', 'final': '?', 'part': 0, 'extra': []} for _ in cases]
+
     def impl(self, case, kills=True):
         if case.get('kind') == 'sys':
             return self.impl_sys(case)
         import boltons.fileutils as fu
         old, new = self.contents(case)
-        old_umask = os.umask(case['umask'])
         obs = {'events': [], 'calls': [], 'out': 'ok', 'kills': '', 'final': '?', 'part': 0, 'extra': []}
         dirs = []
+        pids = []
         try:
             with time_limit(60):
-                # 1. recorded run, in process
-                d, dest = self.prepare(case)
-                dirs.append(d)
-                plan = {case['fault'][0]: case['fault'][1]} if case.get('fault') else None
-                spy = Spy(dest, plan=plan)
-                try:
-                    self.do_save(fu, dest, case, spy)
-                except BODY_EXC:
-                    obs['out'] = 'body'
-                except OSError as e:
-                    obs['out'] = 'os:%s' % (e.errno,)
-                except CaseTimeout:
-                    raise
-                except Exception as e:
-                    obs['out'] = 'exc:' + exc_name(e)
-                obs['events'] = spy.events()
-                obs['calls'] = spy.calls()
-                obs['fired'] = int(any(r.get('injected') for r in spy.log))
-                obs['final'] = classify(old, new, self.look(dest))
-                names = sorted(os.listdir(d))
-                obs['part'] = 1 if PART in names else 0
-                obs['extra'] = [n for n in names if n not in (DEST, PART)]
-                n_calls = spy.n
+                # 1. recorded run
+                obs = self.in_child(lambda: self.recorded(case))
+                n_calls = obs.pop('n_calls')
+                plan = {f[0]: f[1] for f in (case.get('fault'), case.get('fault2')) if f} or None
                 # 2. the same save killed immediately before call k, k = 0..N (k = N: never killed)
                 kills_l = []
+                running = []
+
+                def drain():
+                    for pid, dk, destk in running:
+                        os.waitpid(pid, 0)
+                        pids.remove(pid)
+                        kills_l.append(classify(old, new, self.look(destk)))
+                        shutil.rmtree(dk, ignore_errors=True)
+                    del running[:]
                 for k in (range(n_calls + 1) if kills else ()):
                     dk, destk = self.prepare(case)
                     dirs.append(dk)
@@ -473,22 +919,29 @@ class C04(Property):
                     if pid == 0:
                         try:
                             try:
+                                os.umask(case['umask'])
                                 self.do_save(fu, destk, case, Spy(destk, kill_at=k, plan=plan))
                             except BaseException:
                                 pass
                         finally:
                             os._exit(0)
-                    os.waitpid(pid, 0)
-                    kills_l.append(classify(old, new, self.look(destk)))
-                    shutil.rmtree(dk, ignore_errors=True)
+                    pids.append(pid)
+                    running.append((pid, dk, destk))
+                    if len(running) >= 8:       # the children are independent (a directory each): a few at a time
+                        drain()
+                drain()
                 obs['kills'] = ''.join(kills_l)
+        except ChildDied:
+            obs['out'] = 'exc:ProcessEnded'
         except CaseTimeout:
             obs['out'] = 'exc:CaseTimeout'
+            for pid in pids:
+                try:
+                    os.kill(pid, 9)
+                    os.waitpid(pid, 0)
+                except OSError:
+                    pass
         finally:
-            fu.os = os
-            if 'open' in fu.__dict__:
-                del fu.__dict__['open']
-            os.umask(old_umask)
             for d in dirs:
                 shutil.rmtree(d, ignore_errors=True)
         self._cache[self.key(case)] = obs['events']
@@ -496,12 +949,16 @@ class C04(Property):
 
     # ------------------------------------------------------------------ model line: the OBSERVED trace
     def line(self, case):
+        if case.get('kind') == 'mv':
+            return None            # the publishing primitive alone: no save for the automaton to judge (oracle-only)
         k = self.key(case)
         if k not in self._cache:
             self.impl(case)
         evs = self._cache[k]
         dest = '-' if case['dest'] is None else '%d:%d' % tuple(case['dest'])
-        return ' '.join(['S' if case.get('kind') == 'sys' else 'A', str(case['umask']), dest, str(case['part'])] + evs)
+        if case.get('reuse') == 1:
+            dest = '420:11'        # left by the earlier save through the same saver object
+        return ' '.join(['S' if case.get('kind') == 'sys' else 'A', str(case['umask']), dest, str(self.stale(case))] + evs)
 
     def render(self, case, obs):
         # what a safe, feasible trace must give; the letters are the REAL kill outcomes
@@ -518,8 +975,20 @@ class C04(Property):
         for e in obs['events']:
             st['ev:' + e[0]] = st.get('ev:' + e[0], 0) + 1
         self._nt = False
-        if obs['out'].startswith('exc:'):
+        # a body that closes (detaches) the part file itself takes the file away from the saver: the save may then be
+        # refused with the ValueError of the closed file (destination untouched) - or be completed, correctly
+        closed_refusal = body_closes(case) and obs['out'] == 'exc:ValueError'
+        if obs['out'].startswith('exc:') and not closed_refusal:
             return Failure('unexpected-exception', 'atomic_save raised %s' % obs['out'][4:])
+        if body_closes(case):
+            st['closing_bodies'] = st.get('closing_bodies', 0) + 1
+        for key in ('reuse', 'rel', 'pathlib', 'pname', 'fault2', 'prior', 'cls'):
+            if case.get(key):
+                st['with:' + key] = st.get('with:' + key, 0) + 1
+        if 'intrude' in (case.get('ops') or ()):
+            st['overlapping_writers'] = st.get('overlapping_writers', 0) + 1
+        if case.get('kind') == 'mv':
+            st['direct_rename_calls'] = st.get('direct_rename_calls', 0) + 1
         evs = obs['events']
         old, new = self.contents(case)
         old_letter = classify(old, new, old)
@@ -536,6 +1005,9 @@ class C04(Property):
         for i in opens:
             if not evs[i].startswith('o11:'):
                 return Failure('part-not-exclusive', 'part file opened without O_CREAT|O_EXCL or outside the destination directory (%s)' % evs[i])
+        if len(opens) > 1:
+            return Failure('part-not-exclusive', 'the part file was created %d times during one save (calls #%s): two writers share one part file name'
+                           % (len(opens), ', #'.join(map(str, opens))))
         if writes and (not opens or opens[0] > writes[0]):
             return Failure('dest-touched', 'a write precedes the creation of the part file')
         if pubs:
@@ -568,17 +1040,23 @@ class C04(Property):
                 if not published and letter == 'n' and old_letter != 'n':
                     return Failure('early-publication', 'new content visible when killed before call #%d, before the publishing event' % k)
         # a with-block that exits normally leaves the complete new content and no part file
-        refused = (not case['ow']) and case['dest'] is not None
-        blocked = case['part'] and not case['owp']
+        refused = (not case['ow']) and (case['dest'] is not None or case.get('reuse') == 1)
+        blocked = self.stale(case) and not case['owp']
         if obs.get('fired'):
+            if case.get('fault') and case['fault'][1] == 'K':
+                st['interrupted_saves'] = st.get('interrupted_saves', 0) + 1
             # an operating-system failure was injected at one call (what the caller is told is C05's business):
             # the destination is the old one, or the complete new content put there by a publishing event
             st['faulted_saves'] = st.get('faulted_saves', 0) + 1
             if obs['final'] not in (old_letter, 'n', 'b'):
                 return Failure('partial-destination', 'after a failed %s the destination is %s' % (
-                    obs['calls'][case['fault'][0]], obs['final']))
+                    ' and a failed '.join(obs['calls'][f[0]] for f in (case.get('fault'), case.get('fault2')) if f and f[0] < len(obs['calls'])),
+                    obs['final']))
             if obs['final'] == 'n' and old_letter != 'n' and not pubs:
                 return Failure('dest-touched', 'new content at the destination without a publishing event')
+        elif closed_refusal:
+            if obs['final'] != old_letter:
+                return Failure('partial-destination', 'the save was refused (the body had closed the part file) but the destination is %s' % obs['final'])
         elif not case['raises'] and not refused and not blocked:
             if obs['out'] != 'ok':
                 return Failure('normal-exit', 'a save with nothing in its way raised %s' % obs['out'])
@@ -600,7 +1078,11 @@ class C04(Property):
             drv = Driver(self.PID)
             if not drv.available():
                 return []
-            cases = [c for c in itertools.islice(self.__class__(self.tier, self.seed).cases(5), 40)]
+            cases = [c for c in itertools.islice(self.plain_cases(), 40)]
+            # ... and bodies that close the part file, against the model's saverTraceClosed
+            cases += [self.with_ops(dict(self.BASE, dest=dest, txt=txt, rm=rm, raises=raises), ops)
+                      for dest, txt, rm, raises, ops in itertools.product((None, self.PRESENT), (0, 1), (1, 0), (0, 1),
+                                                                          (['w5', 'close'], ['w3', 'w70000', 'with'], ['close']))]
             lines, obs_ev = [], []
             for c in cases:
                 o = self.impl(c, kills=False)
@@ -609,7 +1091,8 @@ class C04(Property):
                 dest = '-' if c['dest'] is None else '%d:%d' % tuple(c['dest'])
                 lines.append(' '.join(['T', '%d%d%d%d' % (c['ow'], c['owp'], c['rm'], c['txt']),
                                        '-' if c['perms'] is None else str(c['perms']), str(c['umask']), dest,
-                                       str(c['part']), str(c['raises']), ','.join(map(str, c['sizes'])) or '-']))
+                                       str(c['part']), str(min(c['raises'], 1)), ','.join(map(str, c['sizes'])) or '-']
+                                      + (['closed'] if body_closes(c) else [])))
                 obs_ev.append(' '.join(e for e in o['events'] if e != 'n'))
             outs = drv.query(lines)
             same = sum(1 for a, b in zip(outs, obs_ev) if ' '.join(t for t in a.split() if t != 'n') == b)
@@ -619,6 +1102,25 @@ class C04(Property):
         return []
 
     def shrink(self, case):
+        if case.get('fault2'):
+            yield {k: v for k, v in case.items() if k != 'fault2'}
+        if case.get('ops'):
+            ops = case['ops']
+            for i in range(len(ops)):
+                yield self.with_ops(case, ops[:i] + ops[i + 1:])
+            for i, op in enumerate(ops):
+                m = re.match(r'(w|wl|wrap)(\d+)$', op)
+                if m and int(m.group(2)) > 6:
+                    yield self.with_ops(case, ops[:i] + [m.group(1) + '6'] + ops[i + 1:])
+            if not any(op in CLOSERS or op.startswith('wrap') or op in ('intrude', 'chdir') for op in ops):
+                yield {k: v for k, v in dict(case, sizes=ops_sizes(ops)).items() if k != 'ops'}
+            for key in ('reuse', 'rel', 'pathlib', 'pname', 'prior', 'cls'):
+                if case.get(key):
+                    yield {k: v for k, v in case.items() if k != key}
+            return
+        for key in ('reuse', 'rel', 'pathlib', 'pname', 'prior', 'cls'):
+            if case.get(key) and not (key == 'reuse' and not case['ow']):
+                yield {k: v for k, v in case.items() if k != key}
         if len(case['sizes']) > 1:
             yield dict(case, sizes=case['sizes'][:1])
             yield dict(case, sizes=case['sizes'][1:])
